@@ -66,7 +66,8 @@ def jTxn (t : Txn) : Json :=
     jNatOpt b.maxSegs, jB b.sra, jNatOpt b.timer,
     match b.ctx with
     | none => Json.null
-    | some c => Json.mkObj (jApdu c)]
+    | some c => Json.arr #[Json.num c.ty, Json.num c.invokeId, Json.num c.service,
+                           Json.num c.data.length, Json.num (fnv64 c.data)]]
 
 def segOfNat : Nat → R SegSup
   | 0 => pure .no | 1 => pure .tx | 2 => pure .rx | 3 => pure .both
